@@ -1098,7 +1098,7 @@ def _guard_present(ctx, cs, k, g, closures, helpers, relaxed=False, base_combs=N
     # the closure only sees its parameter; everything the operands derived from is computed in the cluster
     if (calls(g1) | calls(g2)) <= uni and (loc(g1) | loc(g2)) <= uni:
         for x in closures:
-            if re.search(r"@(?:Iterator|DoubleEndedIterator|Itertools)::(any|all|find|find_map|position|filter|filter_map|take_while|skip_while|map_while)#\d+$", _closure_role(F, x)):
+            if re.search(r"@(?:Iterator|DoubleEndedIterator|Itertools|Option|Result)::(any|all|find|find_map|position|filter|filter_map|take_while|skip_while|map_while|is_some_and|is_ok_and|is_none_or)#\d+$", _closure_role(F, x)):
                 if any(cg[0] == g[0] for cg in cs.get(x)["guards"]) or (g[0] in ("Eq", "Gt") and any(c0 in CMP_RET for c0 in cs.get(x).get("ret_ops", []))):
                     return True
     # a comparison against nothing stable (`x == None`, `v.len() == 0`) may be written as a predicate call (`x.is_none()`, `v.is_empty()`)
@@ -1504,6 +1504,9 @@ def check(ctx, prop, also=()):
                         c0 = _core(F, g)
                         return any(cg[0] == g[0] and c0 <= _core(F, cg) for cg in own)
                     best = [bs for bs in best if in_own(bs) or not _guard_present(ctx, cs, k, bs, closures, helpers)]
+                if best and any(var in cs.get(x).get("reject_vars", []) for x in closures):
+                    # the rejection is built in the closure of a combinator now (`opt.ok_or_else(|| Error::Other(..))`): the combinator is the test
+                    best = [bs for bs in best if not (bs[0] == "branch" and {"call:" + h[5:] for h in bs[2] if h.startswith("head:")} <= set().union(*[set(cs.get(x2)["universe"]) for x2 in [k] + closures]))]
                 if not best:
                     continue
                 bs = best[0]
